@@ -106,6 +106,9 @@ func RunDefaultRootTwins(x *mon.Ctx) {
 			order = append(order, i)
 		}
 		for n, i := range order {
+			if n == len(b) {
+				shared = &verify.Options{} // the way back is a history of its own
+			}
 			if bad[i] {
 				continue
 			}
